@@ -11,13 +11,14 @@ Fixpoint str_lookup {V} (k : str) (t : list (str * V)) : option V :=
   match t with [] => None | (k', v) :: t' => if str_eqb k k' then Some v else str_lookup k t' end.
 
 Definition ext_of_tables (uni : list (N * (bool * bool * bool))) (queries : list (N * N * qverdict))
-    (merged : list (str * bool)) (regexes : list (str * bool)) : ext :=
+    (merged : list (str * bool)) (regexes : list (str * bool)) (print : list (N * bool)) : ext :=
   {| x_alpha := fun c => match uni_lookup c uni with Some (a, _, _) => a | None => false end;
      x_alnum := fun c => match uni_lookup c uni with Some (_, n, _) => n | None => false end;
      x_ws := fun c => match uni_lookup c uni with Some (_, _, w) => w | None => false end;
      x_query := fun a b => span_lookup a b queries;
      x_merged := fun s => str_lookup s merged;
-     x_regex := fun s => str_lookup s regexes |}.
+     x_regex := fun s => str_lookup s regexes;
+     x_print := print |}.
 
 (* every non-ASCII character of the text has a row in the Unicode table *)
 Definition uni_complete (uni : list (N * (bool * bool * bool))) (text : str) : bool :=
@@ -123,8 +124,9 @@ Definition file_eqb (a b : file) : bool :=
   && list_eqb shorthand_eqb (f_shorthands a) (f_shorthands b) && list_eqb stanza_eqb (f_stanzas a) (f_stanzas b).
 
 (* ------------------------------------------------------------------ erasure *)
-(* `keep_locs = true`: only the derived text of `node` statements (Display of the variable, which is
-   not produced by the parser) is erased; `false`: every location becomes (0, 0) as well *)
+(* `keep_locs = true`: nothing is erased; `false`: every location becomes (0, 0).  The text of `node` statements (Display
+   of the variable: `format!("{}", node)` in the dump of the real AST, `display_variable` in the parser model) is compared
+   in both cases. *)
 Section Erase.
   Variable keep : bool.
   Definition el (l : loc) : loc := if keep then l else (0, 0).
@@ -153,7 +155,7 @@ Section Erase.
     | SLet v e l => SLet (erase_variable v) (erase_expr e) (el l)
     | SVar v e l => SVar (erase_variable v) (erase_expr e) (el l)
     | SSet v e l => SSet (erase_variable v) (erase_expr e) (el l)
-    | SNode v _ l => SNode (erase_variable v) [] (el l)
+    | SNode v t l => SNode (erase_variable v) t (el l)
     | SAttrNode n a l => SAttrNode (erase_expr n) (map erase_attr a) (el l)
     | SEdge a b l => SEdge (erase_expr a) (erase_expr b) (el l)
     | SAttrEdge a b at_ l => SAttrEdge (erase_expr a) (erase_expr b) (map erase_attr at_) (el l)
@@ -210,14 +212,18 @@ Definition compare_obs (r : PRes) (obs : iobs) (intended_ok : bool) : N :=
     end
   end.
 
+(* every non-ASCII character of the text has a row in the <str as Debug> table (read by the text of `node` statements) *)
+Definition print_complete (print : list (N * bool)) (text : str) : bool :=
+  forallb (fun c => (c <? 128) || existsb (fun row => fst row =? c) print) text.
+
 Definition c07_model (text : str) (uni : list (N * (bool * bool * bool))) (queries : list (N * N * qverdict))
-    (merged : list (str * bool)) (regexes : list (str * bool)) : PRes :=
-  if uni_complete uni text && uni_sane uni
-  then parse (ext_of_tables uni queries merged regexes) (fuel_of text) text
+    (merged : list (str * bool)) (regexes : list (str * bool)) (print : list (N * bool)) : PRes :=
+  if uni_complete uni text && uni_sane uni && print_complete print text
+  then parse (ext_of_tables uni queries merged regexes print) (fuel_of text) text
   else PMiss.
 
 Definition c07_verdict (text : str) (uni : list (N * (bool * bool * bool))) (queries : list (N * N * qverdict))
-    (merged : list (str * bool)) (regexes : list (str * bool)) (obs : iobs) (intended_ok : bool) : N :=
-  compare_obs (c07_model text uni queries merged regexes) obs intended_ok.
+    (merged : list (str * bool)) (regexes : list (str * bool)) (print : list (N * bool)) (obs : iobs) (intended_ok : bool) : N :=
+  compare_obs (c07_model text uni queries merged regexes print) obs intended_ok.
 
 Definition c07_detail := c07_model.
